@@ -36,6 +36,20 @@ def functions(src):
         yield m.group(1), m.start(), e + 1
 
 
+BASELINE = set()
+
+
+def baseline(gname, base):
+    g = dict(getattr(P, gname))
+    g["jobs"] = 3
+    work = "/var/tmp/vp-mutk-%s-base" % gname
+    try:
+        r = kanirun.run_groups([g], base, os.path.join(work, "scratch"), "MUT")
+        return set((h["name"], fc["desc"].split(" @ ")[0]) for h in r["harnesses"] for fc in h["failed_checks"])
+    finally:
+        shutil.rmtree(work, ignore_errors=True)
+
+
 def one(job):
     gname, idx, relfile, fname, start, end, rep, desc, base = job
     g = dict(getattr(P, gname))
@@ -51,7 +65,8 @@ def one(job):
         open(p, "w").write(src[:start] + rep + src[end:])
         r = kanirun.run_groups([g], mrepo, os.path.join(work, "scratch"), "MUT")
         line = src[:start].count("\n") + 1
-        failed = [h["name"] for h in r["harnesses"] if h["status"] == "fail"]
+        failed = sorted(set(h["name"] for h in r["harnesses"] if h["status"] == "fail"
+                            for fc in h["failed_checks"] if (h["name"], fc["desc"].split(" @ ")[0]) not in BASELINE))
         if failed:
             st = "fail"
         elif r["undecided"]:
@@ -84,7 +99,9 @@ def main():
         for ms_, me_, r, d in ms:
             jobs.append((a.group, len(jobs), a.file, name, s + ms_, s + me_, r, d, a.repo))
     jobs = jobs[::a.stride]
-    print("%d mutants" % len(jobs), flush=True)
+    global BASELINE
+    BASELINE = baseline(a.group, a.repo)
+    print("%d mutants; baseline failing checks (ignored): %s" % (len(jobs), sorted(BASELINE)), flush=True)
     k = sv = dr = 0
     with cf.ProcessPoolExecutor(max_workers=a.jobs) as ex:
         for res in ex.map(one, jobs, chunksize=1):
